@@ -6,6 +6,7 @@ import (
 	"math"
 	"sync"
 	"testing"
+	"time"
 
 	"go.opentelemetry.io/otel/attribute"
 	"go.opentelemetry.io/otel/sdk/resource"
@@ -57,7 +58,12 @@ type PipeCase struct {
 	TIDSeed uint64 `json:"tid_seed"`
 	SIDSeed uint64 `json:"sid_seed"`
 	Syncer  bool   `json:"syncer"` // WithSyncer(exp) instead of WithSpanProcessor(NewSimpleSpanProcessor(exp))
-	Steps   []Step `json:"steps"`
+	// Batch: 0 = simple processor (or syncer), 1 = BatchSpanProcessor, 2 =
+	// BatchSpanProcessor WithBlocking(); the harness calls ForceFlush before it
+	// looks at the exporter, so "reaches exporters exactly when sampled" is
+	// judged the same way for every stock processor.
+	Batch int    `json:"batch,omitempty"`
+	Steps []Step `json:"steps"`
 }
 
 // ---------------------------------------------------------------------
@@ -138,6 +144,7 @@ func genPipe(t *rapid.T) PipeCase {
 	c.TIDSeed = rapid.Uint64().Draw(t, "tid_seed")
 	c.SIDSeed = rapid.Uint64().Draw(t, "sid_seed")
 	c.Syncer = rapid.Bool().Draw(t, "syncer")
+	c.Batch = rapid.SampledFrom([]int{0, 0, 1, 2}).Draw(t, "batch")
 
 	pool := []string{genTIDHex(t, false, "pool0"), genTIDHex(t, false, "pool1"), genTIDHex(t, false, "pool2")}
 	n := rapid.IntRange(1, 40).Draw(t, "nsteps")
@@ -491,9 +498,14 @@ func runPipe(c PipeCase) ([]vk.Violation, vk.Info) {
 		top = r.compile(&c.Sampler)
 		opts = append(opts, sdktrace.WithSampler(top.sampler))
 	}
-	if c.Syncer {
+	switch {
+	case c.Batch == 1:
+		opts = append(opts, sdktrace.WithSpanProcessor(sdktrace.NewBatchSpanProcessor(exp, sdktrace.WithBatchTimeout(time.Hour))))
+	case c.Batch == 2:
+		opts = append(opts, sdktrace.WithSpanProcessor(sdktrace.NewBatchSpanProcessor(exp, sdktrace.WithBatchTimeout(time.Hour), sdktrace.WithBlocking())))
+	case c.Syncer:
 		opts = append(opts, sdktrace.WithSyncer(exp))
-	} else {
+	default:
 		opts = append(opts, sdktrace.WithSpanProcessor(sdktrace.NewSimpleSpanProcessor(exp)))
 	}
 	if c.SeqIDs {
@@ -502,6 +514,12 @@ func runPipe(c PipeCase) ([]vk.Violation, vk.Info) {
 	tp := sdktrace.NewTracerProvider(opts...)
 	defer func() { _ = tp.Shutdown(context.Background()) }()
 	tracer := tp.Tracer("c09")
+	ends := 0
+	flush := func() {
+		if c.Batch != 0 {
+			_ = tp.ForceFlush(context.Background())
+		}
+	}
 
 	var spans []*spanRec
 	spanIDs := map[trace.SpanID]int{}
@@ -525,6 +543,17 @@ func runPipe(c PipeCase) ([]vk.Violation, vk.Info) {
 			}
 			sp.span.End()
 			sp.ended = true
+			info.ClassIf(sp.decision == 1, "end:record_only_span")
+			info.ClassIf(sp.decision == 0, "end:dropped_span")
+			if c.Batch != 0 {
+				// a ForceFlush per End is expensive: do it for every fifth
+				// End only, the final accounting covers the rest
+				ends++
+				if ends%5 != 1 {
+					continue
+				}
+				flush()
+			}
 			got := exp.bySpanID(sp.sc.SpanID())
 			switch {
 			case sp.sampled && len(got) != 1:
@@ -786,6 +815,9 @@ func runPipe(c PipeCase) ([]vk.Violation, vk.Info) {
 	}
 
 	// ---- final export accounting ----
+	flush()
+	info.ClassIf(c.Batch == 1, "batch_span_processor")
+	info.ClassIf(c.Batch == 2, "batch_span_processor_blocking")
 	known := map[trace.SpanID]*spanRec{}
 	for _, sp := range spans {
 		known[sp.sc.SpanID()] = sp
@@ -872,9 +904,9 @@ func TestPipeline(t *testing.T) {
 	vk.Run(t, vk.Spec[PipeCase]{
 		Property: "C09", Check: "pipeline",
 		Rule: "a sampler from the grammar {AlwaysSample, NeverSample, TraceIDRatioBased(r), ParentBased(root, 0..4 options, nested to depth 2), Scripted(Drop/RecordOnly/RecordAndSample + attributes + parent/replaced/empty tracestate), none configured}, every node behind a recording decorator; " +
-			"a program of 1..40 steps {start root, start child of a started span, start under a supplied span context (remote or local, valid / zero trace ID / zero span ID, sampled or not, extra flag bits, tracestate), each optionally WithNewRoot, end a span}; simple processor (or WithSyncer) + in-memory exporter; default or custom sequential ID generator; " +
+			"a program of 1..40 steps {start root, start child of a started span, start under a supplied span context (remote or local, valid / zero trace ID / zero span ID, sampled or not, extra flag bits, tracestate), each optionally WithNewRoot, end a span}; simple processor, WithSyncer, or BatchSpanProcessor (blocking or not, flushed by the harness before every look at the exporter) + in-memory exporter; default or custom sequential ID generator; " +
 			"non-trivial = some span is the child of a started span and at least two different sampling decisions occur; distinct = distinct case encodings",
-		Quick: 6000, Thorough: 100000,
+		Quick: 2000, Thorough: 100000,
 		Gen: genPipe, Run: runPipe,
 	})
 }
